@@ -54,6 +54,11 @@ for _mk, _parser, _sel in [
     ('<?xml version="1.0"?><!DOCTYPE r><r id="r"><?pi x?><a id="1"><!--c--></a><b id="2" dir="auto">x</b></r>', 'xml', 'a:empty, :root, b:dir(ltr)'),
     ('<form id="f"><input id="1" type="radio" name="g"><input id="2" type="submit"><input id="3" type="number" min="1" value="0"></form>',
      'lxml', ':indeterminate, :default, :out-of-range, :enabled'),
+    # the document binds the prefixes 'html' and 'svg' to URIs of its own (Beautiful Soup forwards the prefixes it saw)
+    ('<html xmlns="http://www.w3.org/1999/xhtml" xmlns:html="http://www.w3.org/TR/REC-html40" xmlns:svg="urn:not-svg"><body>'
+     '<a id="1" href="u">x</a><a id="2">y</a><input id="3" type="checkbox" checked="checked"/><input id="4" required="required"/>'
+     '<html:a id="5" href="u"/><svg:a id="6" href="u"/><button id="7" disabled="disabled"/></body></html>',
+     'xml', ':link, :checked, :required, :disabled, input:enabled'),
 ]:
     _soup = BeautifulSoup(_mk, _parser)
     _a = [e.get('id') for e in _soup.select(_sel)]
